@@ -77,6 +77,15 @@ impl<'a, P: ?Sized + PathImpl> PathMutImpl<'a, P> {
 	}
 
 	pub fn push(&mut self, segment: &P::Segment) {
+		if self.follows_authority && self.start > 0 && self.start == self.end {
+			// VALIDITY: An authority must be followed by an absolute path.
+			//           The empty path `` becomes the empty absolute path `/`
+			//           before the segment is added.
+			allocate_range(self.buffer, self.start..self.start, 1);
+			self.buffer[self.start] = b'/';
+			self.end += 1;
+		}
+
 		// Disambiguate if the path is empty and one of the following is true:
 		// - `segment` looks like a scheme and path is a the start.
 		// - `segment` is empty, path is absolute and following an authority.
